@@ -292,6 +292,28 @@ func (e *integEngine) checkC13(x *integExpect) {
 			if t.Allow {
 				c.Count("c13_timeout_under_allow_failure")
 			}
+			// as a stage of a pipeline: the stage failed (it was not "cancelled": that is what happens
+			// to stages that never ran), and the pipeline run reports the failure
+			if g := e.w.Graph; g != nil && o.Info.Block != "after" {
+				for _, l := range g.Stages {
+					if l.Nested != nil || e.stageTask(l) != t.Name || !e.pipelineRan(g.Name) {
+						continue
+					}
+					want := MError
+					if l.Allow {
+						want = MDone
+					}
+					if got := statusName(e.stages[l.Name].ReadStatus()); got != want {
+						c.Violate("C13", "timeout-stage-status", "stage %s: its task overran the timeout (%s) and the stage has status %s, want %s", l.Name, o.Info.Key, got, want)
+					}
+					for _, d := range e.drivers {
+						if d.Spec.Kind == "pipeline" && d.Spec.Target == g.Name && d.Returned && !l.Allow && d.Err == nil {
+							c.Violate("C13", "timeout-not-reported", "stage %s: its task overran the timeout (%s) but the pipeline run reports success", l.Name, o.Info.Key)
+						}
+					}
+					c.Count("c13_timed_out_stages_checked")
+				}
+			}
 			// terminated shortly afterwards: the run returns within the kill grace period
 			for _, d := range e.drivers {
 				if d.Spec.Kind == "task" && d.Spec.Target == t.Name && d.Returned {
